@@ -36,3 +36,21 @@ func (m *Map[K, V]) VerifLayout() [6]int {
 func (s *Set[T]) VerifMap() *Map[T, struct{}] {
 	return &s.m
 }
+
+// VerifPeek returns the mutex currently registered for key (nil if none).
+func (km *KeyedMutex[T]) VerifPeek(key T) any {
+	m, ok := km.m.Load(key)
+	if !ok {
+		return nil
+	}
+	return m
+}
+
+// VerifPeek returns the mutex currently registered for key (nil if none).
+func (km *KeyedRWMutex[T]) VerifPeek(key T) any {
+	m, ok := km.m.Load(key)
+	if !ok {
+		return nil
+	}
+	return m
+}
